@@ -329,6 +329,10 @@ const GARBAGE: &[&str] = &[
     "[1,2",
     "NaN",
     "Unauthorized",
+    "404 page not found",
+    "{\"errors\":[{\"message\":\"first\"}]}{\"data\":{\"__schema\":{\"queryType\":{\"name\":\"Q\"},\"types\":[]}}}",
+    "{\"data\":{\"__schema\":{\"queryType\":{\"name\":\"Q\"},\"types\":[]}}}\n<html><body>502 Bad Gateway</body></html>",
+    "true false",
     "{\"data\":{\"__schema\":{\"queryType\":{\"name\":\"Q\"},\"types\":[]}}",
 ];
 
@@ -350,7 +354,8 @@ fn gen_script(t: &mut Tape, served_len: usize) -> Script {
         2 => Mode::CloseAfterRequest,
         _ => Mode::Refuse,
     };
-    let status = [200u16, 201, 400, 401, 404, 500, 503][t.weighted(&[58, 10, 7, 7, 6, 6, 6])];
+    // 3xx without a Location header is not followed by an HTTP client: it is a non-2xx reply like any other
+    let status = [200u16, 201, 400, 401, 404, 500, 503, 300, 303, 307, 202][t.weighted(&[55, 8, 6, 6, 5, 5, 5, 3, 3, 2, 2])];
     let ok = (200..300).contains(&status);
     let kind = if ok { ["served_json", "json_other", "garbage", "empty"][t.weighted(&[76, 7, 10, 7])] } else { ["json_other", "garbage", "served_json", "empty"][t.weighted(&[40, 30, 15, 15])] };
     let body_other: Vec<u8> = match kind {
@@ -1178,7 +1183,7 @@ fn replay_one(report: &mut Report, ctx: &Ctx, v: &Value) {
 }
 
 pub fn run(report: &mut Report, replay: Option<&Value>) {
-    report.rule = "cases: tape-decoded (argument vector over --is-one-of / --specify-by-url / --authorization / 0..4 --header strings of valid and invalid shapes / --output or stdout, pre-existing output file or none, model schema served as {\"data\":{\"__schema\":..}}, server script: status 200/201/400/401/404/500/503 x body served JSON | other JSON | garbage | empty x framing content-length | close-delimited | chunked x reply cut inside headers or body | close on accept | close after request | connection refused). One CLI run per case against a recording loopback endpoint. Non-trivial: all --header strings valid AND ((the script must make the CLI fail AND --output names an existing file) OR (>= 2 custom headers AND --authorization)); distinct by hash(argument vector, script, served schema, pre-existing content).".into();
+    report.rule = "cases: tape-decoded (argument vector over --is-one-of / --specify-by-url / --authorization / 0..4 --header strings of valid and invalid shapes / --output or stdout, pre-existing output file or none, model schema served as {\"data\":{\"__schema\":..}}, server script: status 200/201/202/300/303/307 (no Location)/400/401/404/500/503 x body served JSON | other JSON | garbage | empty x framing content-length | close-delimited | chunked x reply cut inside headers or body | close on accept | close after request | connection refused). One CLI run per case against a recording loopback endpoint. Non-trivial: all --header strings valid AND ((the script must make the CLI fail AND --output names an existing file) OR (>= 2 custom headers AND --authorization)); distinct by hash(argument vector, script, served schema, pre-existing content).".into();
     report.assumptions = vec![
         "plain HTTP over loopback only: TLS and --no-ssl are not exercised (no certificates in the sandbox)".into(),
         "header names are drawn from [A-Za-z0-9-] (never a name the HTTP stack sets itself), values from visible ASCII with inner blanks, tokens from [A-Za-z0-9._~+/-]+=*".into(),
